@@ -61,6 +61,7 @@ class Result:
         self.states = set()       # digests of distinct canonical cases/states
         self.transitions = 0      # implementation steps taken
         self.viols = []           # dicts: key, what, case, expected, observed
+        self._per_key = {}
         self.outcomes = collections.Counter()
         self.caps = collections.Counter()
         self.nontrivial = {}      # schema -> set of verdict classes seen
@@ -74,7 +75,10 @@ class Result:
         self.nontrivial.setdefault(schema, set()).add(v)
 
     def viol(self, key, what, case, expected=None, observed=None):
-        if len(self.viols) < 200:
+        # every distinct key is kept (first two cases each); nothing is dropped by a global cap
+        n = self._per_key.get(key, 0)
+        if n < 2:
+            self._per_key[key] = n + 1
             self.viols.append(dict(key=key, what=what, case=case, expected=expected, observed=observed))
         self.extra["violating_cases"] += 1
 
@@ -107,7 +111,11 @@ def load_known(prop):
     if not os.path.exists(path):
         return {}, {}
     data = json.load(open(path))
-    known = {e["key"]: e for e in data["findings"] if e["property"] == prop and e["status"] == "known"}
+    known = {}
+    for e in data["findings"]:
+        if e["property"] == prop and e["status"] == "known":
+            for k in [e["key"]] + list(e.get("keys", [])):
+                known[k] = e
     fixed = {e["key"]: e for e in data["findings"] if e["property"] == prop and e["status"] == "fixed"}
     return known, fixed
 
@@ -243,8 +251,13 @@ def main(argv=None):
             print(f"  key={key}: {v['what']}")
     if reported:
         status = 1
+    printed = set()
     for key in known_hit:
-        print(f"KNOWN-FINDING: property={prop} {known[key]['what']} [{key}]")
+        if id(known[key]) in printed:
+            continue
+        printed.add(id(known[key]))
+        n = sum(1 for k2 in known_hit if known[k2] is known[key])
+        print(f"KNOWN-FINDING: property={prop} {known[key]['what']} [{known[key]['key']}" + (f"; {n} listed instances reproduced]" if n > 1 else "]"))
 
     coverage = {
         "evaluations": agg.evals,
